@@ -45,6 +45,10 @@ def run(tier, seed, replay=None):
         files = [(rel, cr.blob_from_token(t)) for rel, t in c["files"]]
         run_case(run, drv, files, c["pl"], c["single"], "replay")
     else:
+        from harness.common import corpus_cases
+        for c in corpus_cases("C03"):
+            files = [(rel, cr.blob_from_token(t)) for rel, t in c["files"]]
+            run_case(run, drv, files, c["pl"], c["single"], "corpus")
         for _ in range(80 if tier == "quick" else 800):
             files, pl, single = cr.make_case(run.rng, tier, single_p=0.3)
             run_case(run, drv, files, pl, single, "random")
